@@ -15,7 +15,7 @@ BOUNDS = {"quick": "[+ death kinds {killed, interrupted, commit refused}; kill: 
                    "per table: every sequence of <=2 operations over {store A, store B (replace), delete, ...} on 2 keys, crash at every statement/commit boundary of the last operation, reopen; "
                    "symbolic: <=2 operations with unconstrained ids (0..2^40), group ids (strings <=6), record blobs (1..64 bytes), 32-byte identity keys, registration id; crash before boundary 0..3 or none",
           "thorough": "sequences of <=4 operations (symbolic: <=3)"}
-OUTSIDE = ["sqlite's own journal atomicity (trusted: a transaction that was not committed is rolled back when the file is reopened -- under the premise, checked on every path, that the connection keeps its rollback journal / WAL on disk)", "power-loss below the OS (fsync ordering)",
+OUTSIDE = ["sqlite's own journal atomicity (trusted: a transaction that was not committed is rolled back when the file is reopened -- under the premise, checked on every path, that the connection keeps its rollback journal / WAL on disk; exercised for real, with a child process that dies at its commit, for transactions larger than the page cache)", "power-loss below the OS (fsync ordering)",
            "record contents: blobs are opaque tokens in the crash harness (sqlite only stores and compares them); real python-axolotl records are used in the durability harness"]
 ASSUMPTIONS = ["a process death = the connection is abandoned at a statement/commit boundary without commit; either at once (killed) or after the stack has unwound once (interrupted: finally blocks of the store code run)",
                "symbolic cases: sqlite3 behaves like sx/symsql.py on the statements issued (differentially tested each run; every model replayed on real sqlite3); python-axolotl record classes are transparent wrappers of their bytes"]
